@@ -569,7 +569,23 @@ def pf_linked(D, T=3, time_back=1, time_forward=0, tar=0):
     return Shape(pf, tg, prices_for(D, ['p', 'q', 'r'], T))
 
 
-PORTFOLIOS = dict(linked=pf_linked, early_node=pf_early_node, names=pf_names, caps_dict=pf_caps_dict, mixed_wacc=pf_mixed_wacc, alternating=pf_alternating, uncoupled=pf_uncoupled, caps_ts=pf_caps_ts, windows=pf_windows, contract_storage=pf_contract_storage, two_node=pf_two_node, multicommodity=pf_multicommodity,
+def pf_plant_mincap_col(D, T=3):
+    """plant whose minimum capacity is the name of a data column (nothing else forces on-variables), listed BEFORE two further assets"""
+    eao = lift.import_eao()
+    tg = grid(T)
+    (nA,) = nodes('A')
+    mx = D('pl_max', lo=0)
+    pl = eao.assets.Plant(name='pl', nodes=[nA], price='p', min_cap='mincap', max_cap=mx)
+    pr = prices_for(D, ['p', 'q'], T)
+    pr['mincap'] = D.arr('mincap', T, lo_strict=0)
+    if D.symbolic:
+        for v_ in pr['mincap']:
+            D.assume(v_ <= mx)
+    pf = eao.portfolio.Portfolio([pl, mk_market(D, 'mkt', nA, T, 'q'), mk_market(D, 'pv', nA, T, 'p', ec=True)])
+    return Shape(pf, tg, pr)
+
+
+PORTFOLIOS = dict(plant_mincap_col=pf_plant_mincap_col, linked=pf_linked, early_node=pf_early_node, names=pf_names, caps_dict=pf_caps_dict, mixed_wacc=pf_mixed_wacc, alternating=pf_alternating, uncoupled=pf_uncoupled, caps_ts=pf_caps_ts, windows=pf_windows, contract_storage=pf_contract_storage, two_node=pf_two_node, multicommodity=pf_multicommodity,
                   contract_take=pf_contract_take, plant=pf_plant, coarse=pf_coarse, periodic=pf_periodic,
                   orderbook=pf_orderbook, scaled=pf_scaled, structured=pf_structured, ext_transport=pf_ext_transport)
 
